@@ -29,6 +29,6 @@ For each change k = 1..3 write into {out}/ (create the directory):
   patch{{k}}.diff   - `git -C {wt} diff` of exactly that change alone (apply each change on a clean tree: `git -C {wt} checkout -- .` between changes),
   demo{{k}}.py      - a small self-contained script that exits 0 (prints PASS) on the unmodified library and exits 1 (prints FAIL and what differed) with the change applied; it must use only the public behaviour described by the property (no reference to your patch), run in well under a minute, and be run as `PYTHONPATH=<tree>/src /venv/bin/python demo{{k}}.py`,
   meta{{k}}.json    - {{"property": "{pid}", "summary": "...", "files": [...], "needs_to_manifest": "...", "tests_run": "... exact commands and pass/fail counts ...", "demo_result_clean": "PASS", "demo_result_patched": "FAIL ..."}}.
-Verify both directions of every demo yourself (clean tree -> PASS, patched tree -> FAIL) before writing the meta file. Leave the worktree clean (`git -C {wt} checkout -- .`) when you finish; do not delete it.
+Verify both directions of every demo yourself (clean tree -> PASS, patched tree -> FAIL) before writing the meta file. NEVER use `git stash` (the stash is shared by all worktrees of the repository and gets mixed up with other agents); toggle with `git apply` / `git apply -R` / `git checkout -- .`. Leave the worktree clean (`git -C {wt} checkout -- .`) when you finish; do not delete it.
 
 Final answer: a short list of the changes you produced (one line each) and anything notable (e.g. if you discovered that the UNMODIFIED library already violates the property for some input - give that input).""")
